@@ -359,10 +359,13 @@ func (db *DB) commitWorker() {
 			}
 		}
 
+		utils.VerifYield("crash.commit.afterVlog")
 		failedAt, err := db.applyRequests(batch.requests)
+		utils.VerifYield("crash.commit.afterApply")
 		if err == nil && db.opt.SyncWrites {
 			err = db.wal.Sync()
 		}
+		utils.VerifYield("crash.commit.beforeAck")
 		if db.writeMetrics != nil {
 			totalDur := max(time.Since(batch.batchStart), 0)
 			applyDur := max(totalDur-batch.valueLogDur, 0)
